@@ -1,15 +1,28 @@
 // C12 — synthesis / merge / equation: consistent result, exact translations
 // C13 — basis and maximal-part extraction
 // Engine E1 (bounded-exhaustive enumeration of cases on the real RSForm / ops code, san flavour, fork isolation).
-// modes: synth    BinarySynthes over all ordered pairs of a pool of small operand schemas x all equation tables with <= 2 entries
-//                 (incl. foreign identifiers) x term modes x uid policy
+// modes: synth    BinarySynthes over all ordered pairs of a pool of small operand schemas x all equation tables with <= 2 (thorough 3)
+//                 entries (incl. foreign identifiers) x term modes x uid policy (x insertion order of the table, thorough)
 //        inplace  Equate / IsEquatable / DeleteDuplicates / MergeWith on single schemas (refused => exact state unchanged)
 //        basis    OpExtractBasis: schemas {X1,X2} + k derived terms, definitions from a pool realising every dependency relation,
 //        maxpart  OpMaxPart:      every list order reachable by MoveBefore, every selection
 // Oracles: own whole-identifier renamer (written from MathLexerImpl.l, no library code), own digraph closure / fixpoint code,
-// exact private-state key for "refused => unchanged". What is asserted is exactly what the property states; behaviour the
-// property leaves open (which operand survives, which preconditions an operation has) is taken from the upstream tests
-// (testSynthes, testEquationProcessor, testRSOperationsFacet, testMaxPart, testExtractBasis) and only used as anchors.
+// exact private-state key for "refused => unchanged" (twin-object protocol: the key of an untouched identical build).
+// What is asserted is exactly what the property states; behaviour the property leaves open (which operand of an equated pair
+// survives, which preconditions an operation has) is taken from the upstream tests (testSynthes, testEquationProcessor,
+// testRSOperationsFacet, testMaxPart, testExtractBasis) and only used as anchors:
+//   * C12 "every mention of a removed or renamed constituent is rewritten to its image": every result constituent must equal, up to the
+//     renaming given by the RETURNED translations, one of the operand constituents mapped to it (kind, definition, convention; term and
+//     text definition likewise, or the new term of a createNew equation). Names that do not resolve in their operand are wildcards.
+//   * C12 correctness / typification clause only for fully correct operands and like-with-like tables (same kind; base with base,
+//     constant with constant, structure / term of equal typification after identifying the equated sets).
+//   * C12 admissibility is not modelled: only "refused => nothing changed", IsEquatable <=> Equate, and the anchors (empty table and a
+//     single base-with-base equation are admissible for BinarySynthes; foreign identifier / self-equation / empty table are refused).
+//   * C13 dependencies = names of constituents mentioned in the formal definition (cross-checked with Schema::Graph). For OpMaxPart the
+//     property's characterisation is checked as stated (a fixpoint: selection kept, every other member qualifies, every non-member
+//     does not); with dependency cycles more than one fixpoint exists and any is accepted. Selections the operations document as
+//     inadmissible are only required to be refused consistently (Execute()==nullptr <=> !IsCorrectlyDefined()).
+// Fault containment: see guarded() / preflight() below.
 #include "engine/mc.hpp"
 #include "model/uid_policy.hpp"
 
@@ -68,6 +81,43 @@ bool guarded(Ctx& c, const std::string& prop, const std::string& what, F&& body)
   return true;
 }
 
+// Pre-flight in a forked child for tables with >= 3 entries, where IsEquatable is known to be able to spin (cyclic substitution): a
+// hang cannot be left in-process, and engine E3 charges 20 s + a 60 s solo re-run + a shard restart per hang. The child's stderr goes
+// to a scratch file; if the child dies its report gives the violation and the case is NOT repeated in-process.
+// result: 0 = returned normally, 1 = hang (killed), 2 = died (what = stable one-line description)
+template <class F>
+int preflight(F&& body, int timeoutSec, std::string& what) {
+  fflush(nullptr);
+  const std::string errPath = "/verif/build/scratch/h_ops-pf-" + std::to_string(getpid()) + ".err";
+  const pid_t p = fork();
+  if (p < 0) { what = "fork failed"; return 2; }
+  if (p == 0) {
+    alarm(0);
+    const int fd = open(errPath.c_str(), O_WRONLY | O_CREAT | O_TRUNC, 0666); if (fd >= 0) { dup2(fd, 2); close(fd); }
+    body(); _exit(0);
+  }
+  const double t0 = now_s(); int st = 0; int result = -1;
+  for (useconds_t nap = 200; result < 0; nap = std::min<useconds_t>(nap * 2, 20000)) {
+    const pid_t r = waitpid(p, &st, WNOHANG);
+    if (r == p) result = (WIFEXITED(st) && WEXITSTATUS(st) == 0) ? 0 : 2;
+    else if (r < 0) { what = "waitpid failed"; result = 2; }
+    else if (now_s() - t0 > timeoutSec) { kill(p, SIGKILL); waitpid(p, &st, 0); result = 1; }
+    else usleep(nap);
+  }
+  if (result == 2 && what.empty()) {
+    const std::string err = tail_of_file(errPath, 200000);
+    auto grab = [&](const char* key) -> std::string { auto q = err.find(key); if (q == std::string::npos) return {}; auto e = err.find('\n', q); return err.substr(q, e == std::string::npos ? std::string::npos : e - q); };
+    std::string l = grab("runtime error: ");
+    if (l.empty()) l = grab("Assertion");
+    if (l.empty()) l = grab("SUMMARY: ");
+    if (l.empty()) l = crash_signature(st, err);
+    std::string clean; for (char ch : l) if (ch != '\'' && ch != '"' && ch != '`') clean += ch;
+    what = clean.substr(0, 90);
+  }
+  unlink(errPath.c_str());
+  return result;
+}
+
 // =============================================================================================
 // reference lexer / renamer (identifier grammar of MathLexerImpl.l; shares no code with /repo)
 size_t alnumLen(const std::string& s, size_t i) {
@@ -114,6 +164,21 @@ std::string renameGlobals(const std::string& s, const NameMap& m) {  // simultan
   out.append(s, pos, std::string::npos);
   return out;
 }
+// observed == orig with every mention of a name in `ren` replaced by its image. A name that is not in `ren` (it does not resolve in
+// its operand) may read anything in `observed`: the property speaks about mentions of constituents only, and such a name can be
+// captured by an alias of the other operand.
+bool matchRenamedGlobals(const std::string& orig, const NameMap& ren, const std::string& obs) {
+  const auto wo = globalWords(orig), wb = globalWords(obs);
+  if (wo.size() != wb.size()) return false;
+  size_t po = 0, pb = 0;
+  for (size_t i = 0; i < wo.size(); ++i) {
+    if (orig.compare(po, wo[i].b - po, obs, pb, wb[i].b - pb) != 0) return false;
+    auto it = ren.find(orig.substr(wo[i].b, wo[i].e - wo[i].b));
+    if (it != ren.end() && obs.compare(wb[i].b, wb[i].e - wb[i].b, it->second) != 0) return false;
+    po = wo[i].e; pb = wb[i].e;
+  }
+  return orig.compare(po, std::string::npos, obs, pb, std::string::npos) == 0;
+}
 std::set<std::string> mentions(const std::string& s) { std::set<std::string> r; for (auto& w : globalWords(s)) r.insert(s.substr(w.b, w.e - w.b)); return r; }
 
 // entity references "@{NAME|tags}" in managed text: only the entity field is renamed
@@ -136,6 +201,18 @@ std::string renameRefs(const std::string& raw, const NameMap& m) {
   }
   out.append(raw, pos, std::string::npos);
   return out;
+}
+bool matchRenamedRefs(const std::string& orig, const NameMap& ren, const std::string& obs) {
+  const auto wo = refNamesSpans(orig), wb = refNamesSpans(obs);
+  if (wo.size() != wb.size()) return false;
+  size_t po = 0, pb = 0;
+  for (size_t i = 0; i < wo.size(); ++i) {
+    if (orig.compare(po, wo[i].b - po, obs, pb, wb[i].b - pb) != 0) return false;
+    auto it = ren.find(orig.substr(wo[i].b, wo[i].e - wo[i].b));
+    if (it != ren.end() && obs.compare(wb[i].b, wb[i].e - wb[i].b, it->second) != 0) return false;
+    po = wo[i].e; pb = wb[i].e;
+  }
+  return orig.compare(po, std::string::npos, obs, pb, std::string::npos) == 0;
 }
 std::set<std::string> refNames(const std::string& raw) { std::set<std::string> r; for (auto& w : refNamesSpans(raw)) r.insert(raw.substr(w.b, w.e - w.b)); return r; }
 
@@ -302,10 +379,11 @@ int checkImages(Ctx& c, const Images& im, const View& R, const std::string& ctx)
     bool okDef = false, okTerm = false, okText = false; std::string expDef, expTerm, expText;
     for (auto& [i, oc] : it->second) {
       const std::string d = renameGlobals(oc->def, ren[i]), cv = renameGlobals(oc->conv, ren[i]);
-      if (oc->type == r.type && d == r.def && cv == r.conv) okDef = true;
+      if (oc->type == r.type && matchRenamedGlobals(oc->def, ren[i], r.def) && matchRenamedGlobals(oc->conv, ren[i], r.conv)) okDef = true;
       expDef += "[" + std::string(1, letterOf(oc->type)) + ":" + d + (cv.empty() ? "" : " conv'" + cv + "'") + "]";
       const std::string t = renameRefs(oc->term, ren[i]), x = renameRefs(oc->text, ren[i]);
-      if (t == r.term) okTerm = true; if (x == r.text) okText = true;
+      if (matchRenamedRefs(oc->term, ren[i], r.term)) okTerm = true;
+      if (matchRenamedRefs(oc->text, ren[i], r.text)) okText = true;
       expTerm += "[" + t + "]"; expText += "[" + x + "]";
     }
     if (im.extraTerms.count(r.term)) okTerm = true;
@@ -334,8 +412,9 @@ int checkImages(Ctx& c, const Images& im, const View& R, const std::string& ctx)
 
 // "like with like": same kind; base with base, constant with constant, otherwise equal typification after identifying the equated sets
 struct EqEntry { int k, v; int mode; };   // indices into operand item lists (-1 = foreign identifier), mode 1..3
-bool likeWithLike(const View& A, const View& B, const std::vector<EqEntry>& t) {
+bool likeWithLike(const View& A, const View& B, const std::vector<EqEntry>& t, bool sameSchema = false) {
   NameMap ident;  // alias of key in A -> "=" + alias of value in B (tagged so that names of A and B cannot be confused)
+  if (sameSchema) for (auto& b : B.items) ident[b.alias] = "=" + b.alias;   // in-place: an unequated name denotes the same constituent on both sides
   for (auto& e : t) { if (e.k < 0 || e.v < 0) return false; ident[A.items[static_cast<size_t>(e.k)].alias] = "=" + B.items[static_cast<size_t>(e.v)].alias; }
   NameMap tagB; for (auto& b : B.items) tagB[b.alias] = "=" + b.alias;
   for (auto& e : t) {
@@ -358,6 +437,9 @@ std::vector<Spec> operandPool() {
   using T = CstType;
   std::vector<Spec> p;
   auto add = [&](const std::string& name, bool quick, std::vector<Item> items) { Spec s; s.name = name; s.items = std::move(items); s.quick = quick; p.push_back(std::move(s)); };
+  // first in the (thorough) pool: the pair (elem, elem) holds the only known sanitizer-level fault, and engine E3 re-runs a shard from its
+  // start after a dead worker - early is cheap
+  add("elem", true, { { 101, "X1", T::base, "", "", "", "" }, { 102, "D1", T::term, "debool(X1)", "", "", "" }, { 103, "D2", T::term, "{D1}", "", "", "" } });
   add("E", false, {});
   add("X", true, { { 101, "X1", T::base, "", "", "a", "" } });
   add("XX", true, { { 101, "X1", T::base, "", "", "a", "" }, { 102, "X2", T::base, "", "", "b", "" } });
@@ -366,15 +448,14 @@ std::vector<Spec> operandPool() {
   add("bad", true, { { 101, "X1", T::base, "", "", "", "" }, { 102, "D1", T::term, "X1 invalid", "", "", "" }, { 103, "D2", T::term, "D1∪X1", "", "", "" } });
   add("self", true, { { 101, "X1", T::base, "", "", "a", "" }, { 102, "D1", T::term, "D1∪X1", "", "", ref("D1") + " of " + ref("X1") }, { 103, "D2", T::term, "X1", "", "", ref("D1") } });
   add("types", true, { { 101, "X1", T::base, "", "", "", "" }, { 102, "X2", T::base, "", "", "", "" }, { 103, "D1", T::term, "X1", "see X1 and D1", "", "" }, { 104, "D2", T::term, "X2", "", "", "" } });
-  add("XXS", false, { { 101, "X1", T::base, "", "", "a", "" }, { 102, "X2", T::base, "", "", "b", "" }, { 103, "S1", T::structured, "ℬ(X1×X2)", "", "", "" } });
-  add("CS", false, { { 101, "C1", T::constant, "", "", "c", "" }, { 102, "S1", T::structured, "ℬ(C1)", "", "", "" } });
+  add("XXS", true, { { 101, "X1", T::base, "", "", "a", "" }, { 102, "X2", T::base, "", "", "b", "" }, { 103, "S1", T::structured, "ℬ(X1×X2)", "", "", "" } });
+  add("CS", true, { { 101, "C1", T::constant, "", "", "c", "" }, { 102, "S1", T::structured, "ℬ(C1)", "", "", "" } });
   add("XCD", false, { { 101, "X1", T::base, "", "", "", "" }, { 102, "C1", T::constant, "", "", "", "" }, { 103, "D1", T::term, "X1×C1", "", "", "" } });
   add("far", false, { { 112, "X2", T::base, "", "", "", "" }, { 111, "X5", T::base, "", "", "", "" }, { 113, "S3", T::structured, "ℬ(X5×X2)", "", "", "" } });
-  add("elem", false, { { 101, "X1", T::base, "", "", "", "" }, { 102, "D1", T::term, "debool(X1)", "", "", "" }, { 103, "D2", T::term, "{D1}", "", "", "" } });
   add("dangle", false, { { 101, "X1", T::base, "", "", "", "" }, { 102, "D1", T::term, "X1∪X3", "", "", "" } });
   add("kinds", false, { { 101, "X1", T::base, "", "", "", "" }, { 102, "A1", T::axiom, "X1=X1", "", "", "" }, { 103, "F1", T::function, "[α∈ℬ(X1)] α∪X1", "", "", "" }, { 104, "D1", T::term, "F1[X1]", "", "", "" } });
   add("refs", true, { { 101, "X1", T::base, "", "", "a", "" }, { 102, "X2", T::base, "", "", ref("X1") + " b", "" }, { 103, "D1", T::term, "X1", "", "", ref("X2") + " and " + ref("D1") } });
-  add("dup", false, { { 101, "X1", T::base, "", "", "a", "" }, { 102, "D1", T::term, "X1", "", "d", "" }, { 103, "D2", T::term, "X1", "", "d", "" } });
+  add("dup", true, { { 101, "X1", T::base, "", "", "a", "" }, { 102, "D1", T::term, "X1", "", "d", "" }, { 103, "D2", T::term, "X1", "", "d", "" } });
   return p;
 }
 std::vector<Spec> inplaceExtraPool() {
@@ -382,6 +463,7 @@ std::vector<Spec> inplaceExtraPool() {
   std::vector<Spec> p;
   auto add = [&](const std::string& name, bool quick, std::vector<Item> items) { Spec s; s.name = name; s.items = std::move(items); s.quick = quick; p.push_back(std::move(s)); };
   add("I3", true, { { 101, "X1", T::base, "", "", "a", "" }, { 102, "X2", T::base, "", "", "b", "" }, { 103, "X3", T::base, "", "", ref("X1"), "" }, { 104, "S1", T::structured, "ℬ(X1×X2)", "", "", "" }, { 105, "S2", T::structured, "ℬ(X3×X2)", "", "", "" } });
+  add("dup3", true, { { 101, "X1", T::base, "", "", "a", "" }, { 102, "D1", T::term, "X1", "", "d", "" }, { 103, "D2", T::term, "X1", "", "d", "" }, { 104, "D3", T::term, "X1", "", "d", "" } });
   add("I2", false, { { 101, "X1", T::base, "", "", "", "" }, { 102, "X2", T::base, "", "", "", "" }, { 103, "S1", T::structured, "ℬ(X1)", "", "", "" }, { 104, "S2", T::structured, "ℬ(X2)", "", "", "" }, { 105, "D1", T::term, "S1", "", "", "" }, { 106, "D2", T::term, "S2", "", "", "" } });
   return p;
 }
@@ -406,14 +488,20 @@ std::string showTable(const std::vector<EqEntry>& t, const std::vector<Item>& A,
 }
 
 // all tables with <= maxEntries entries; keys distinct. sameSchema: key == value allowed (in-place); foreign identifiers in 1-entry tables
-void forEachTable(int nA, int nB, int maxEntries, const std::function<void(const std::vector<EqEntry>&)>& f) {
+void forEachTable(int nA, int nB, int maxEntries, const std::function<void(const std::vector<EqEntry>&)>& f, bool allModePairs = false) {
   f({});
   if (maxEntries < 1) return;
   for (int k = -1; k < nA; ++k) for (int v = -1; v < nB; ++v) { if (k < 0 && v < 0) continue; for (int m = 1; m <= 3; ++m) f({ { k, v, m } }); }
   if (maxEntries < 2) return;
   static const int combos[3][2] = { { 1, 1 }, { 2, 3 }, { 3, 2 } };
   for (int k1 = 0; k1 < nA; ++k1) for (int k2 = k1 + 1; k2 < nA; ++k2) for (int v1 = 0; v1 < nB; ++v1) for (int v2 = 0; v2 < nB; ++v2)
-    for (auto& cm : combos) f({ { k1, v1, cm[0] }, { k2, v2, cm[1] } });
+  {
+    if (allModePairs) { for (int m1 = 1; m1 <= 3; ++m1) for (int m2 = 1; m2 <= 3; ++m2) f({ { k1, v1, m1 }, { k2, v2, m2 } }); }
+    else for (auto& cm : combos) f({ { k1, v1, cm[0] }, { k2, v2, cm[1] } });
+  }
+  if (maxEntries < 3) return;   // 3 entries: one mode assignment (H, D, N)
+  for (int k1 = 0; k1 < nA; ++k1) for (int k2 = k1 + 1; k2 < nA; ++k2) for (int k3 = k2 + 1; k3 < nA; ++k3)
+    for (int v1 = 0; v1 < nB; ++v1) for (int v2 = 0; v2 < nB; ++v2) for (int v3 = 0; v3 < nB; ++v3) f({ { k1, v1, 1 }, { k2, v2, 2 }, { k3, v3, 3 } });
 }
 
 // cached exact key of a fresh build (twin object): never touched by any operation
@@ -443,6 +531,13 @@ void run_synth(Ctx& c, const Options& opt) {
         const View VA = snapshot(*A), VB = snapshot(*B);
         const EquationOptions eq = makeTable(t, SA.items, SB.items, flip != 0);
         std::unique_ptr<ccl::ops::BinarySynthes> opp; std::unique_ptr<RSForm> res; bool correct = false;
+        if (t.size() >= 3) {
+          std::string what;
+          const int pf = preflight([&] { ccl::ops::BinarySynthes probe(*A, *B, eq); if (probe.IsCorrectlyDefined()) (void)probe.Execute(); }, static_cast<int>(opt.num("hang-after", 10)), what);
+          if (pf == 1) c.fail("C12:fault:hang", "BinarySynthes did not return within " + std::to_string(opt.num("hang-after", 10)) + " s (killed in a forked child)");
+          if (pf == 2) c.fail("C12:fault:died:" + what, "BinarySynthes killed the forked child it was pre-flighted in: " + what);
+          if (pf != 0) { c.rep.outcome(pf == 1 ? "fault-hang" : "fault-died"); c.rep.count("evaluations"); c.rep.count("faults"); c.done(); continue; }
+        }
         if (!guarded(c, "C12", "BinarySynthes", [&] { opp = std::make_unique<ccl::ops::BinarySynthes>(*A, *B, eq); correct = opp->IsCorrectlyDefined(); res = opp->Execute(); })) {
           (void)A.release(); (void)B.release(); (void)opp.release(); (void)res.release();
           c.rep.count("evaluations"); c.rep.count("faults"); c.done(); continue;
@@ -488,16 +583,17 @@ void run_synth(Ctx& c, const Options& opt) {
         if (c.idx % 4999 == 1) c.rep.sample(desc + " => " + cls);
         c.done();
       }
-    });
+    }, opt.num("allmodes", 0) != 0);   // --allmodes 1: all 9 mode pairs for 2-entry tables (3x the cases; not registered)
   }
 }
 
 // ---------------------------------------------------------------------------------------------
 void run_inplace(Ctx& c, const Options& opt) {
   const bool th = opt.thorough();
-  std::vector<Spec> pool; for (auto& s : operandPool()) if (th || s.quick) pool.push_back(s);
-  for (auto& s : inplaceExtraPool()) if (th || s.quick) pool.push_back(s);
-  std::vector<Spec> others; for (auto& s : operandPool()) if (th || s.quick) others.push_back(s);
+  (void)th;   // the in-place pool is the same in both tiers (cheap); the tiers differ in the table size
+  std::vector<Spec> pool = operandPool();
+  for (auto& s : inplaceExtraPool()) pool.push_back(s);
+  const std::vector<Spec> others = operandPool();
   const int maxEntries = static_cast<int>(opt.num("entries", 2));
   const int policies = static_cast<int>(opt.num("policies", 2));
   std::map<std::string, std::string> twins;
@@ -515,17 +611,25 @@ void run_inplace(Ctx& c, const Options& opt) {
         const EquationOptions eq = makeTable(t, S.items, S.items, flip != 0);
         int checks = 0;
         bool can = false; std::optional<EntityTranslation> tr;
+        if (t.size() >= 3) {
+          std::string what;
+          const int pf = preflight([&] { if (F->Ops().IsEquatable(eq)) (void)F->Ops().Equate(eq); }, static_cast<int>(opt.num("hang-after", 10)), what);
+          if (pf == 1) c.fail("C12:fault:hang", "IsEquatable/Equate did not return within " + std::to_string(opt.num("hang-after", 10)) + " s (killed in a forked child; normal cost is a few milliseconds)");
+          if (pf == 2) c.fail("C12:fault:died:" + what, "IsEquatable/Equate killed the forked child it was pre-flighted in: " + what);
+          if (pf != 0) { c.rep.outcome(pf == 1 ? "fault-hang" : "fault-died"); c.rep.count("evaluations"); c.rep.count("faults"); c.done(); continue; }
+        }
         if (!guarded(c, "C12", "IsEquatable/Equate", [&] { can = F->Ops().IsEquatable(eq); })) { (void)F.release(); c.rep.count("evaluations"); c.rep.count("faults"); c.done(); continue; }
         ++checks; if (exactKey(*F) != twinKey(S, twins)) c.fail("C12:isequatable-modifies", "IsEquatable changed the schema", exactKey(*F), twinKey(S, twins));
         if (!guarded(c, "C12", "Equate", [&] { tr = G->Ops().Equate(eq); })) { (void)G.release(); c.rep.count("evaluations"); c.rep.count("faults"); c.done(); continue; }   // on the twin G (fresh)
         ++checks; if (can != tr.has_value()) c.fail("C12:isequatable-disagrees", "IsEquatable and Equate disagree on admissibility", tr ? "equated" : "refused", can ? "equatable" : "not equatable");
         bool foreign = false, selfEq = false; for (auto& e : t) { if (e.k < 0 || e.v < 0) foreign = true; else if (e.k == e.v) selfEq = true; }
         if (t.empty() || foreign || selfEq) { ++checks; if (tr) c.fail("C12:equate-inadmissible-accepted", "empty table / foreign identifier / constituent equated with itself was accepted"); }
-        const bool like = !foreign && !selfEq && !t.empty() && likeWithLike(V0, V0, t);
+        const bool like = !foreign && !selfEq && !t.empty() && likeWithLike(V0, V0, t, true);
         std::string cls;
         if (!tr) {
           ++checks; if (exactKey(*G) != twinKey(S, twins)) c.fail("C12:refused-but-modified", "Equate refused the table but the schema changed", exactKey(*G), twinKey(S, twins));
           cls = std::string("equate-refused") + (like ? "-like" : "-unlike");
+          if (like && opt.num("show-refused-like", 0)) c.rep.notes.push_back(desc);
         } else {
           const View R = snapshot(*G);
           Images im; im.ops = { &V0 };
@@ -537,6 +641,7 @@ void run_inplace(Ctx& c, const Options& opt) {
           for (auto& e : t) if (e.mode == 3) im.extraTerms.insert(kNewTerm);
           im.assertCorrectness = like && V0.allVerified();
           checks += checkImages(c, im, R, ctx);
+          if (opt.kv.count("trace") && desc.find(opt.kv.at("trace")) != std::string::npos) c.rep.notes.push_back(desc + " => like=" + (like ? "1" : "0") + " " + ctx);
           for (auto& e : t) { ++checks; if (tau.at(S.items[static_cast<size_t>(e.k)].uid) != tau.at(S.items[static_cast<size_t>(e.v)].uid)) c.fail("C12:equated-pair-two-survivors", "equated pair maps to two constituents | " + ctx); }
           cls = std::string("equate-accepted") + (like ? "-like" : "-unlike") + (V0.allVerified() ? "-correct" : "-incorrect") + (R.allVerified() ? ">correct" : ">incorrect") + (tr->size() > t.size() ? "+dups" : "");
           c.rep.count("nontrivial");
@@ -745,7 +850,7 @@ void run_c13(Ctx& c, const Options& opt, int op) {
   for (int k = 0; k <= kmax && !c.stop(); ++k) {
     // per-k enumeration parameters
     const int maxExtras = static_cast<int>(opt.num("extras" + std::to_string(k), k <= 2 ? k : (k == 3 ? 1 : 0)));   // how many constituents may take an extra (non-pure) definition
-    const bool withB = opt.num("noX" + std::to_string(k), k <= 3 ? 1 : 0) != 0;                                     // pure definitions without the base set
+    const bool withB = opt.num("noX" + std::to_string(k), (k <= 2 || (th && k == 3)) ? 1 : 0) != 0;                                     // pure definitions without the base set
     const bool acyclicOnly = opt.num("acyclic" + std::to_string(k), k >= 4 ? 1 : 0) != 0;                          // k=4: only acyclic dependency relations (cycles are complete for k<=3)
     const bool xswap = opt.num("xswap" + std::to_string(k), (k <= 2 || (th && k == 3)) ? 1 : 0) != 0;               // both orders of X1, X2
     std::vector<std::vector<std::string>> pure(static_cast<size_t>(k)), extra(static_cast<size_t>(k));
@@ -803,14 +908,15 @@ int main(int argc, char** argv) {
   if (opt.mode == "synth") {
     res.property = "C12";
     res.rep = run_sharded(opt, "synth", [&](Ctx& c) { run_synth(c, opt); }, &ri);
-    res.completed_bound = std::string("all ordered pairs of the ") + (th ? "17" : "7") + "-schema operand pool x all equation tables with <= " + std::to_string(opt.num("entries", 2)) + " entries (keys distinct; 1-entry tables also with a foreign identifier) x term modes x 2 uid policies" + (th ? " x both insertion orders of 2-entry tables" : "");
+    size_t npool = 0; for (auto& sp : operandPool()) if (th || sp.quick) ++npool;
+    res.completed_bound = std::string("all ordered pairs of the ") + std::to_string(npool) + "-schema operand pool x all equation tables with <= " + std::to_string(opt.num("entries", 2)) + " entries (keys distinct; 1-entry tables also with a foreign identifier) x term modes (1 entry: all 3; 2 entries: " + (opt.num("allmodes", 0) ? "all 9 pairs" : "HH, DN, ND") + "; 3 entries: HDN) x 2 uid policies" + (th ? " x both insertion orders of 2-entry tables" : "");
     res.alphabet = "operand schemas of <= 4 constituents: empty, base sets, structures, terms (equal / different typification, chain, element-typed), constant sets, axiom / function, partially incorrect, self-mentioning definition and texts, dangling name, entity references in terms and text definitions, internal duplicates, overlapping aliases and uids, disjoint uids with alias gaps; modes keepHier / keepDel / createNew";
     res.rule = "case = (operand 1, operand 2, equation table, uid policy[, insertion order]) - distinct by construction; non-trivial = accepted with a non-empty table or with duplicates removed";
   } else if (opt.mode == "inplace") {
     res.property = "C12";
     res.rep = run_sharded(opt, "inplace", [&](Ctx& c) { run_inplace(c, opt); }, &ri);
-    res.completed_bound = std::string("every schema of the pool (+ in-place schemas of 5-6 constituents): all equation tables with <= 2 entries over the schema (incl. self-equation, foreign identifier, chains, 2-cycles; both insertion orders) x modes x 2 uid policies for IsEquatable/Equate; DeleteDuplicates; MergeWith every pool schema and itself");
-    res.alphabet = "same pool as synth + I3 {X1,X2,X3,S1,S2}, I2 {X1,X2,S1,S2,D1,D2}";
+    res.completed_bound = std::string("every schema of the pool (+ in-place schemas of 4-6 constituents): all equation tables with <= ") + std::to_string(opt.num("entries", 2)) + " entries over the schema (incl. self-equation, foreign identifier, chains, cycles; both insertion orders of 2-entry tables) x modes x 2 uid policies for IsEquatable/Equate; DeleteDuplicates; MergeWith every pool schema and itself";
+    res.alphabet = "same pool as synth + I3 {X1,X2,X3,S1,S2}, dup3 {X1, three identical terms}, I2 {X1,X2,S1,S2,D1,D2}";
     res.rule = "case = (schema, operation, table / other schema, uid policy); non-trivial = accepted equation, removed duplicate, non-empty merge";
   } else if (opt.mode == "basis" || opt.mode == "maxpart") {
     res.property = "C13";
